@@ -344,6 +344,13 @@ def probes_from_log(r, cf, p_idx, acc):
     return flushes_in_record or overwritten or any(rec.length >= 0xFF00 for rec in cf.records)
 
 
+# a source assembled before the program in the same invocation: nothing of it may show in the program's code file
+PREDECESSORS = ["\tcpu z80\n\torg 100h\n\tnop\n\tend 103h\n", "\tcpu 68000\n\torg $2000\n\tdc.w 1\n\tend $2000\n",
+                "\tcpu 8051\n\tsegment data\n\torg 40h\nx:\tdb ?\n\tsegment xdata\n\torg 77h\n\tdb 1\n",
+                "\tcpu 6809\n\torg $4000\n\tfdb $1234\n\trmb 7\n", "\tcpu 320c30\n\torg 5\n\tword 1\n\tbss 3\n",
+                "\tcpu 6502\n\torg $300\n\tbyt 1\n\tphase $1000\n\tbyt 2\n", "\tcpu 17c42\n\torg 9\n\tdata 1,2\n\tend 9\n"]
+
+
 WRAP_KINDS = ["include", "macro", "rept1", "irp1", "if1", "section", "phase", "listing", "include2", "struct-free"]
 
 
@@ -413,20 +420,25 @@ def wrap(lines, seed):
     return ("\n".join(out) + "\n").encode(), extra, used
 
 
-def check_generated(sim, lines, model, knobs, variant, acc, wrap_seed=None):
+def check_generated(sim, lines, model, knobs, variant, acc, wrap_seed=None, pred=None):
     """Run one generated program under one knob setting; returns (violations, code file bytes, nontrivial)."""
     argv = None
     for ln in lines:
         if ln.startswith("; cpu0=") and ln.split()[-1] == "option":
             argv = ["-q", "-cpu", ln[7:].split()[0], "a.asm"]
+    if pred is not None:
+        argv = (argv or ["-q", "a.asm"])[:-1] + ["p.asm", "a.asm"]
+        acc["faults"]["predecessor_file"] = acc["faults"].get("predecessor_file", 0) + 1
     if wrap_seed:
         src, extra, used = wrap(lines, wrap_seed)
         for u in used:
             acc["faults"]["wrapped-in-" + u] = acc["faults"].get("wrapped-in-" + u, 0) + 1
+        if pred is not None:
+            extra = dict(extra, **{"/w/p.asm": PREDECESSORS[pred].encode()})
         sc = scenario(src, knobs, extra_disk=extra, argv=argv)
     else:
         src = ("\n".join(lines) + "\n").encode()
-        sc = scenario(src, knobs, argv=argv)
+        sc = scenario(src, knobs, argv=argv, extra_disk={"/w/p.asm": PREDECESSORS[pred].encode()} if pred is not None else None)
     r, san = sim.run("asl", sc, variant)
     acc["runs"] += 1
     acc["sim_us"] += r.sim_us
@@ -571,7 +583,7 @@ def run_explicit(sim, case, acc):
     vio = []
     files = []
     for kn in case["knobs"]:
-        vs, p, nt = check_generated(sim, lines, model, kn, case.get("variant", "plain"), acc, case.get("wrap"))
+        vs, p, nt = check_generated(sim, lines, model, kn, case.get("variant", "plain"), acc, case.get("wrap"), case.get("pred"))
         vio += vs
         files.append(p)
     good = [f for f in files if f is not None]
@@ -603,6 +615,8 @@ def run_case(sim, case):
             c = {"kind": "explicit", "lines": lines, "knobs": knobs, "variant": variant}
             if not case.get("big") and rng.chance(0.4):
                 c["wrap"] = 1 + rng.below(1 << 30)
+            if not case.get("big") and rng.chance(0.25) and not any(l.startswith("; cpu0=") and l.endswith("default") for l in lines):
+                c["pred"] = rng.below(len(PREDECESSORS))  # (a program relying on the built-in default CPU is not put behind another)
             before = dict(acc["probes"])
             vio = run_explicit(sim, c, acc)
             nt = 1 if acc["probes"] != before else 0
@@ -679,6 +693,8 @@ def minimise(sim, case, vclass):
             c = {"kind": "explicit", "lines": lines, "knobs": knobs, "variant": case.get("variant", "plain")}
             if case.get("wrap"):
                 c["wrap"] = case["wrap"]
+            if case.get("pred") is not None:
+                c["pred"] = case["pred"]
             return vclass in [v["class"] for v in run_case(sim, c)["violations"]]
         except Exception:
             return False
@@ -695,4 +711,6 @@ def minimise(sim, case, vclass):
     out = {"kind": "explicit", "lines": lines, "knobs": knobs, "variant": case.get("variant", "plain")}
     if case.get("wrap"):
         out["wrap"] = case["wrap"]
+    if case.get("pred") is not None:
+        out["pred"] = case["pred"]
     return out
